@@ -79,7 +79,17 @@ func runBatch(bin string, vecs []*Vector, perVec time.Duration) map[int]*NativeR
 	if len(vecs) == 0 {
 		return res
 	}
-	pending := vecs
+	// predicted hangs are run one at a time with a short deadline
+	var pending []*Vector
+	for _, v := range vecs {
+		if v.Predicted != nil && v.Predicted.Outcome == "hang" {
+			for k, r := range runOne(bin, v, 5*time.Second) {
+				res[k] = r
+			}
+			continue
+		}
+		pending = append(pending, v)
+	}
 	for len(pending) > 0 {
 		f := filepath.Join(workDir(), fmt.Sprintf("batch-%d-%d.jsonl", os.Getpid(), time.Now().UnixNano()))
 		var buf bytes.Buffer
@@ -89,7 +99,7 @@ func runBatch(bin string, vecs []*Vector, perVec time.Duration) map[int]*NativeR
 			buf.WriteByte('\n')
 		}
 		os.WriteFile(f, buf.Bytes(), 0o644)
-		budget := time.Duration(len(pending))*perVec/4 + 20*time.Second
+		budget := time.Duration(len(pending))*perVec/50 + 15*time.Second
 		ctx, cancel := context.WithTimeout(context.Background(), budget)
 		cmd := exec.CommandContext(ctx, bin, "-test.run", "^TestReplay$", "-test.count=1")
 		cmd.Env = append(os.Environ(), "VERIF_REPLAY_BATCH="+f)
@@ -130,6 +140,41 @@ func runBatch(bin string, vecs []*Vector, perVec time.Duration) map[int]*NativeR
 			res[bad.ID] = &NativeResult{ID: bad.ID, Outcome: "crash", Msg: msg}
 		}
 		pending = pending[got+1:]
+	}
+	return res
+}
+
+func runOne(bin string, v *Vector, d time.Duration) map[int]*NativeResult {
+	res := map[int]*NativeResult{}
+	f := filepath.Join(workDir(), fmt.Sprintf("one-%d-%d.json", os.Getpid(), time.Now().UnixNano()))
+	b, _ := json.Marshal(v)
+	os.WriteFile(f, b, 0o644)
+	defer os.Remove(f)
+	ctx, cancel := context.WithTimeout(context.Background(), d)
+	defer cancel()
+	cmd := exec.CommandContext(ctx, bin, "-test.run", "^TestReplay$", "-test.count=1")
+	cmd.Env = append(os.Environ(), "VERIF_REPLAY="+f)
+	cmd.Dir = workDir()
+	out, _ := cmd.CombinedOutput()
+	if ctx.Err() != nil {
+		res[v.ID] = &NativeResult{ID: v.ID, Outcome: "hang", Msg: "the native run did not return within " + d.String()}
+		return res
+	}
+	for _, line := range strings.Split(string(out), "\n") {
+		if strings.HasPrefix(line, "REPLAY-RESULT ") {
+			var r NativeResult
+			if json.Unmarshal([]byte(line[len("REPLAY-RESULT "):]), &r) == nil {
+				r.ID = v.ID
+				res[v.ID] = &r
+			}
+		}
+	}
+	if res[v.ID] == nil {
+		msg := string(out)
+		if i := strings.Index(msg, "fatal error:"); i >= 0 {
+			msg = msg[i:]
+		}
+		res[v.ID] = &NativeResult{ID: v.ID, Outcome: "crash", Msg: msg}
 	}
 	return res
 }
